@@ -32,7 +32,7 @@ THEMES = ['prec', 'prec2', 'lhs', 'stmt', 'iter', 'ctrl', 'lit', 'acc',
 CONFIGS = [('minify', False), ('minify+drop', True)]
 
 RULE = ('TLC-derived programs (11 themes subsampled by tree shape and by '
-        'adjacent token-class pair, + simulate), rich spellings, x {drop_semi '
+        'adjacent token-class pair and by what follows / precedes each construct, + simulate, + compositions into longer programs and twins), rich spellings, x {drop_semi '
         'off, on}; each minified text is one PrintTrace record and one '
         're-parse evaluation; the evidence lists the distinct (kind, last '
         'char class | first char class, kind) adjacencies with empty '
@@ -93,6 +93,12 @@ def main(tier, seed, replay=None):
                               gaps=gaps)
             work.append(text)
             sents.append(_freeze(s))
+    comps = gen.compositions(themes, rng, tier, names=THEMES)
+    for s, sp in comps:
+        work.append(concretise(s, seed=rng.randrange(1000), pools='rich',
+                               spellings=sp))
+        sents.append(s)
+    rep.notes['compositions'] = len(comps)
     res = impl.pmap(_minify, work, chunk=100)
     rep.mark('printed')
     cases = []
